@@ -218,7 +218,7 @@ func (e *Enc) instrEffect(in ssa.Instruction, ef *effect) {
 					if !mapWriteNames(c.Args[0].Type(), ef.names) {
 						ef.all = true
 					}
-					ef.names["C|string|"] = true
+					ef.addFresh("C|string|") // the one-element value slice is freshly allocated
 					arrSorts["C|string|"] = "(Array Ref Str)"
 				}
 				return
@@ -284,7 +284,7 @@ func newEnc(prog *ssa.Program, fn *ssa.Function, db *ContractDB) *Enc {
 	return &Enc{prog: prog, fn: fn, db: db, con: db.byFunc[fname(fn)], declared: map[string]bool{},
 		vals: map[ssa.Value]*Val{}, locs: map[ssa.Value]*Loc{}, endState: map[*ssa.BasicBlock]State{},
 		reach: map[*ssa.BasicBlock]string{}, kindN: map[string]int{}, tags: map[string]int{},
-		params: map[string]*Val{}, effects: map[*ssa.Function]*effect{}, ranges: map[*ssa.Range]*rangeInfo{}, freeRef: map[string]*Val{}, merges: map[int]*mergeInfo{}, dyn: map[ssa.Value]types.Type{}, ghostSites: map[string]bool{}, siteResults: map[string]*Val{}, lastOrd: map[string]int{}}
+		params: map[string]*Val{}, effects: map[*ssa.Function]*effect{}, ranges: map[*ssa.Range]*rangeInfo{}, freeRef: map[string]*Val{}, merges: map[int]*mergeInfo{}, preserved: map[int]*preserveInfo{}, pendingFrame: map[string]string{}, pendingOld: map[string]string{}, dyn: map[ssa.Value]types.Type{}, ghostSites: map[string]bool{}, siteResults: map[string]*Val{}, lastOrd: map[string]int{}}
 }
 
 var reachedRe = regexp.MustCompile(`reached\("([^"]+)"\)`)
@@ -316,6 +316,32 @@ func (e *Enc) run() {
 			li.writes[n] = true
 		}
 		li.all = ef.all
+		if li.all {
+			// what every "unknown code" call in the body is declared to preserve
+			first := true
+			for b := range li.body {
+				for _, in := range b.Instrs {
+					one := &effect{names: map[string]bool{}, fresh: map[string]bool{}}
+					e.instrEffect(in, one)
+					if !one.all {
+						continue
+					}
+					pp := e.instrPreserves(in)
+					if first {
+						li.preserve = pp
+						first = false
+					} else {
+						var keep []string
+						for _, x := range li.preserve {
+							if contains(pp, x) {
+								keep = append(keep, x)
+							}
+						}
+						li.preserve = keep
+					}
+				}
+			}
+		}
 	}
 	e.entry = State{m: map[string]string{}, epoch: 0, unesc: map[*ssa.Alloc]string{}}
 	alloc0 := e.declare("alloc!0", "Int")
@@ -601,6 +627,29 @@ func preExisting(r string) string {
 	return and(one(r), one(owner(r)), one(owner(owner(r))))
 }
 
+// instrPreserves: the array prefixes an "everything" call is declared to leave alone (nil if none).
+func (e *Enc) instrPreserves(in ssa.Instruction) []string {
+	ci, ok := in.(ssa.CallInstruction)
+	if !ok {
+		return nil
+	}
+	c := ci.Common()
+	if c.IsInvoke() {
+		return e.db.ifacePreserves[ifaceMethodKey(c.Method)]
+	}
+	switch callee := c.Value.(type) {
+	case *ssa.Function:
+		if con := e.db.byFunc[fname(callee)]; con != nil {
+			return con.Preserves
+		}
+	default:
+		if pn := callbackName(c.Value); pn != "" && e.con != nil {
+			return e.con.CallbackPreserves[pn]
+		}
+	}
+	return nil
+}
+
 func shorten(s string) string {
 	s = strings.Join(strings.Fields(s), "")
 	if len(s) > 72 {
@@ -846,6 +895,7 @@ func (e *Enc) loopHeader(b *ssa.BasicBlock, li *loopInfo, fwd []*ssa.BasicBlock,
 		for _, lf := range lenFns {
 			lf := lf
 			add(name+"<="+lf.desc, false, func(sub map[ssa.Value]*Val, s State) string { return app("<=", sub[phi].c[0], lf.f(s)) })
+			add(name+"<"+lf.desc, false, func(sub map[ssa.Value]*Val, s State) string { return app("<", sub[phi].c[0], lf.f(s)) })
 		}
 		if len(fwd) == 1 {
 			init := e.phiSub(b, fwd[0])[phi]
@@ -966,7 +1016,20 @@ func (e *Enc) loopHeader(b *ssa.BasicBlock, li *loopInfo, fwd []*ssa.BasicBlock,
 			}
 		}
 	}
-	if li.all {
+	if li.all && len(li.preserve) > 0 {
+		pre := st.clone()
+		e.havocAllExcept(st, li.writes)
+		for n, t := range pre.m {
+			for _, p := range li.preserve {
+				if strings.HasPrefix(n, p) && !li.writes[n] {
+					st.m[n] = t
+				}
+			}
+		}
+		var pp []string
+		pp = append(pp, li.preserve...)
+		e.preserved[st.epoch] = &preserveInfo{pre: pre, prefixes: pp, except: li.writes}
+	} else if li.all {
 		e.havocAllExcept(st, li.writes)
 	} else {
 		for n := range li.writes {
@@ -980,6 +1043,14 @@ func (e *Enc) loopHeader(b *ssa.BasicBlock, li *loopInfo, fwd []*ssa.BasicBlock,
 			}
 		}
 	}
+	// the allocation watermark only grows
+	{
+		old := e.watermark(st)
+		nw := e.fresh("wm.loop", "Int")
+		e.assume(app(">=", nw, old))
+		arrSorts["G|wm"] = "Int"
+		st.m["G|wm"] = nw
+	}
 	// ghost "reached" flags of call sites inside the loop are unknown at the header
 	for site := range e.ghostSites {
 		base := site
@@ -991,6 +1062,14 @@ func (e *Enc) loopHeader(b *ssa.BasicBlock, li *loopInfo, fwd []*ssa.BasicBlock,
 			for _, in := range blk.Instrs {
 				if c, ok := in.(*ssa.Call); ok && siteName(c) == base {
 					inLoop = true
+				}
+				if s, ok := in.(*ssa.Store); ok && strings.HasPrefix(base, "store:") {
+					if fa, ok := s.Addr.(*ssa.FieldAddr); ok {
+						stt := fa.X.Type().Underlying().(*types.Pointer).Elem()
+						if "store:"+structKey(stt)+"."+stt.Underlying().(*types.Struct).Field(fa.Field).Name() == base {
+							inLoop = true
+						}
+					}
 				}
 			}
 		}
@@ -1005,6 +1084,7 @@ func (e *Enc) loopHeader(b *ssa.BasicBlock, li *loopInfo, fwd []*ssa.BasicBlock,
 		v := e.freshVal("loop."+phi.Comment, phi.Type())
 		e.vals[phi] = v
 		sub[phi] = v
+		e.existing(st, v) // a loop-carried reference designates an object that exists at the loop head
 	}
 	// assume candidates at header
 	for k, c := range li.cands {
